@@ -30,6 +30,10 @@ type spec[T any] struct {
 	valid func(v *T) bool  // marshalling must succeed (nil = always)
 	rt    func(v *T) bool  // value is in the round-trip domain (nil = always)
 	text  func(v *T) []string // free text of the value (to decide XML representability); nil = use reflection
+	// rtNote names the documented limit of the round-trip domain; when set, values
+	// outside the domain that do not round trip are reported under clause
+	// "time-range" with this key (a finding of its own, never mixed with "roundtrip")
+	rtNote string
 }
 
 // entry is the type-erased view used by the runner.
@@ -102,6 +106,20 @@ func panicClass(p string) string {
 		}
 		return r
 	}, p)
+}
+
+// errClass is a coarse, stable normal form of an error message.
+func errClass(err error) string {
+	m := err.Error()
+	if len(m) > 32 {
+		m = m[:32]
+	}
+	return strings.Map(func(r rune) rune {
+		if (r >= 'a' && r <= 'z') || (r >= 'A' && r <= 'Z') || (r >= '0' && r <= '9') || r == ':' || r == '-' {
+			return r
+		}
+		return '_'
+	}, m)
 }
 
 // collectText gathers every string reachable from v (exported or not) so the
@@ -313,7 +331,9 @@ func register[T any](s spec[T]) {
 				continue
 			case err != nil:
 				if inRT {
-					r.Fail("roundtrip", s.name+"/"+p.name+"/decode-error", lines, "the type's own output does not decode: "+err.Error()+"\n"+describe())
+					r.Fail("roundtrip", s.name+"/decode-error/"+errClass(err), lines, "the type's own output does not decode: "+err.Error()+"\n"+describe())
+				} else if s.rtNote != "" {
+					r.Fail("time-range", s.name+"/"+s.rtNote, lines, "written but not readable: "+err.Error()+"\n"+describe())
 				}
 				continue
 			}
